@@ -16,7 +16,8 @@ PROPERTY = 'C02'
 RULE = ('molecules generated per scheme vocabulary (gas C/H/O chains, branches, rings, alkenes with/without cis-trans '
         'marks, alkynes, carbonyls, aromatics, radicals; Pt/Ru adsorbates; out-of-vocabulary molecules for the failure '
         'clause) x all 9 shipped scheme files (6 distinct), each scheme read as a program by the independent interpreter; '
-        'plus synthetic schemes (2-6 centre patterns, correction descriptors, fractional/one-to-many remaps) written to '
+        'plus every molecule of a bounded enumerator (<= 3 quick / 4 thorough heavy atoms over C/O(/N), bond orders 1-3, three-rings, one radical '
+        'site, 1-3 metal bonds) for each distinct scheme; plus synthetic schemes (2-6 centre patterns, correction descriptors, fractional/one-to-many remaps) written to '
         'disk and loaded. Non-trivial = >= 3 heavy atoms and the expected result has a correction descriptor, a remapped '
         'key, an aromatic/ring/radical/metal-bound centre, or is a failure. Distinct = distinct (scheme, canonical SMILES).')
 ASSUMPTIONS = ['RDKit SMILES reading, sanitisation, Kekulisation and ring perception are trusted; RDKit substructure search is not',
@@ -181,6 +182,25 @@ def check_any(ctx, case):
         check_synthetic(ctx, case)
 
 
+def enum_small(tier):
+    """bounded exhaustive: every small molecule of the enumerator for every shipped scheme"""
+    n = 3 if tier == 'quick' else 4
+    seen = set()
+    for L in shipped.LIBS:
+        h = hashlib.sha1(open(scheme_path(L), 'rb').read()).hexdigest()
+        if h in seen:
+            continue
+        seen.add(h)
+        gas = L in ('BensonGA', 'PPY')
+        els = ('C', 'O', 'N') if gas else ('C', 'O')
+        metal = None if gas else ('Ru' if L == 'XieGA2022' else 'Pt')
+        for smi in molgen.enumerate_small(n, els, metal):
+            yield dict(kind='shipped', lib=L, smiles=smi)
+        if not gas:
+            for smi in molgen.enumerate_small(min(n, 3), ('C', 'O'), None):
+                yield dict(kind='shipped', lib=L, smiles=smi)
+
+
 def synthetic_strategy(tier):
     from props.C02_synth import scheme_case
     return scheme_case()
@@ -189,4 +209,5 @@ def synthetic_strategy(tier):
 FAMILIES = [
     Family('shipped-schemes', check_any, strategy=lambda tier: shipped_case(), n=(1400, 30000)),
     Family('synthetic-schemes', check_any, strategy=synthetic_strategy, n=(400, 8000)),
+    Family('small-molecules-exhaustive', check_any, enumerate=enum_small),
 ]
